@@ -183,12 +183,25 @@ class Ctx:
         h = self.harness
         cases = []
         for ln in lines:
-            cases.append((ln, h.impl(ln)))
+            try:
+                out = h.impl(ln)
+            except HarnessError:
+                raise
+            except Exception as e:  # noqa: BLE001 - the implementation side crashed outside its own canonicalisation
+                out = f"crash {type(e).__name__}: {str(e)[:200]}"
+            cases.append((ln, out))
         return self.correspond(name, h.EXE, cases, nontrivial=nontrivial, key=key)
 
     def check(self, name, witness, key=None, nontrivial=True):
         """Property oracle on the real code: harness.ORACLES[name](witness) -> (ok, detail)."""
-        ok, detail = self.harness.ORACLES[name](witness)
+        try:
+            ok, detail = self.harness.ORACLES[name](witness)
+        except HarnessError:
+            raise
+        except Exception as e:  # noqa: BLE001
+            # an exception escaping a property-level predicate on the real code is the predicate failing
+            # (with the exception as the observation), never a harness crash
+            ok, detail = False, f"oracle `{name}` left through {type(e).__name__}: {str(e)[:300]}"
         return self.oracle(name, ok, detail, key=key, witness={"oracle": name, "witness": witness},
                            nontrivial=nontrivial)
 
